@@ -305,7 +305,108 @@ func evalSafe(e hclsyntax.Expression, ctx *hcl.EvalContext) (v cty.Value, d hcl.
 	return
 }
 
+// ---- the two conditional findings (proved as refutations in Eval/UnknownSound.v) -----------------------
+//
+// (1) an arm whose ABSTRACT value is an unknown of the dynamic pseudo-type: ConditionalExpr plans no
+//     conversion ("the final result type is still unknown") and returns the other arm as it is, while
+//     every concrete run unifies the two arm types and converts.
+// (2) an unselected arm that is fine abstractly but FAILS concretely (or the reverse): its diagnostics
+//     are dropped, its residual DynamicVal changes the result type.
+type condW struct {
+	f      func(ce *hclsyntax.ConditionalExpr, ctx func(*hcl.EvalContext) *hcl.EvalContext) bool
+	locals []map[string]struct{}
+	found  bool
+}
+
+func (w *condW) child(ctx *hcl.EvalContext) *hcl.EvalContext {
+	if len(w.locals) == 0 {
+		return ctx
+	}
+	c := ctx.NewChild()
+	c.Variables = map[string]cty.Value{}
+	for _, m := range w.locals {
+		for k := range m {
+			c.Variables[k] = cty.DynamicVal
+		}
+	}
+	return c
+}
+
+func (w *condW) Enter(n hclsyntax.Node) hcl.Diagnostics {
+	switch t := n.(type) {
+	case hclsyntax.ChildScope:
+		w.locals = append(w.locals, t.LocalNames)
+	case *hclsyntax.ConditionalExpr:
+		func() {
+			defer func() { recover() }()
+			if w.f(t, w.child) {
+				w.found = true
+			}
+		}()
+	}
+	return nil
+}
+
+func (w *condW) Exit(n hclsyntax.Node) hcl.Diagnostics {
+	if _, ok := n.(hclsyntax.ChildScope); ok {
+		w.locals = w.locals[:len(w.locals)-1]
+	}
+	return nil
+}
+
+func condDynArm(e hclsyntax.Expression, ctxA *hcl.EvalContext) bool {
+	w := &condW{f: func(ce *hclsyntax.ConditionalExpr, ch func(*hcl.EvalContext) *hcl.EvalContext) bool {
+		for _, arm := range []hclsyntax.Expression{ce.TrueResult, ce.FalseResult} {
+			v, d := arm.Value(ch(ctxA))
+			v, _ = v.Unmark()
+			// an unknown part of the dynamic pseudo-type anywhere in the arm's abstract value: the arm's
+			// type is not settled, yet the result type (and the conversion of the other arm) is
+			if !d.HasErrors() && v.Type().HasDynamicTypes() && !v.IsWhollyKnown() {
+				return true
+			}
+		}
+		return false
+	}}
+	hclsyntax.Walk(e, w)
+	return w.found
+}
+
+func condDroppedArmFails(e hclsyntax.Expression, ctxA, ctxC *hcl.EvalContext) bool {
+	w := &condW{f: func(ce *hclsyntax.ConditionalExpr, ch func(*hcl.EvalContext) *hcl.EvalContext) bool {
+		fails := func(ctx *hcl.EvalContext) (bool, bool) {
+			cv, cd := ce.Condition.Value(ch(ctx))
+			if cd.HasErrors() {
+				return false, false
+			}
+			cv, _ = cv.Unmark()
+			if !cv.IsKnown() {
+				_, td := ce.TrueResult.Value(ch(ctx))
+				_, fd := ce.FalseResult.Value(ch(ctx))
+				return td.HasErrors() || fd.HasErrors(), true
+			}
+			if cv.IsNull() || cv.Type() != cty.Bool {
+				return false, false
+			}
+			other := ce.FalseResult
+			if cv.False() {
+				other = ce.TrueResult
+			}
+			_, od := other.Value(ch(ctx))
+			return od.HasErrors(), true
+		}
+		fa, da := fails(ctxA)
+		fc, dc := fails(ctxC)
+		return da && dc && fa != fc
+	}}
+	hclsyntax.Walk(e, w)
+	return w.found
+}
+
 var corpus = []string{
+	// the refutation witnesses of Eval/UnknownSound.v and variations
+	`(false ? d : 1) == 1`, `false ? d : 1`, `(true ? 1 : d) == 1`, `[true ? 1 : d][0] == 1`, `"${false ? d : 1}" == "1"`,
+	`(true ? 1 : mp[s]) == "1"`, `true ? 1 : mp[s]`, `(false ? l[n] : "x") == "x"`, `(true ? [1] : [l[n]])[0]`,
+	`b ? d : 1`, `b ? (false ? d : 1) : 2`, `[for x in [1, 2] : (false ? d : x)]`,
 	`b ? n : m`, `b ? l : []`, `"a${s}b"`, `"${s}"`, `l[*]`, `l[n]`, `mp[s]`, `o.a`, `tp[0]`, `[for v in l : v]`, `{for k, v in mp : k => v}`,
 	`[for v in l : v if b]`, `b || d`, `b && d`, `n + m`, `n < m`, `s == t`, `!b`, `-n`, `upper(s)`, `sum(l...)`, `first(l...)`, `isnull(s)`,
 	`l[*].a`, `o.*.a`, `[s, n][m]`, `{(s) = n}`, `"%{ if b }x%{ else }y%{ endif }"`, `"%{ for x in l }${x}%{ endfor }"`, `b ? "a${s}" : "b"`,
@@ -316,6 +417,10 @@ func run(cfg *hv.RunCfg) error {
 	rep := hv.NewReport("C05", cfg.Seed)
 	rep.Rule = "typed expression generator over scopes in which ~25% of the leaf values are unknown (typed, dynamically typed, refined: not-null, string prefix, numeric bounds, length bounds; nested inside collections); each error-free abstract evaluation is compared with 4 concretisations (every unknown replaced by a known value of its type meeting its refinements); plus the converse on the concrete scopes; non-trivial = the scope has an unknown value and the abstract result is not wholly known; distinct by SHA-256 of (scope, text)"
 	r := hv.NewRng(cfg.Seed, 505)
+	cf := &hv.CaseFile{Dir: cfg.Out, Name: "c05cases",
+		Imports: "From Coq Require Import QArith String.\nFrom HclV Require Import Base.Prelude Cty.Values Cty.Convert Cty.Ops Eval.Impl Eval.Funcs Eval.UnknownSound_Check.",
+		Ctype:   "c05case", Checker: "check_c05_cases",
+		Extras:  [][2]string{{"violations", "c05_violations"}, {"skipped", "c05_skipped"}}}
 	var texts []string
 	if cfg.Replay != "" {
 		b, err := os.ReadFile(cfg.Replay)
@@ -326,13 +431,29 @@ func run(cfg *hv.RunCfg) error {
 	} else {
 		texts = append(texts, corpus...)
 		for i := 0; i < cfg.N; i++ {
-			texts = append(texts, "")
+			if i%3 == 2 {
+				texts = append(texts, "\x00tgt")
+			} else {
+				texts = append(texts, "")
+			}
 		}
 	}
 	for _, text := range texts {
 		g := hv.NewEvalGen(r)
 		g.Marks, g.Unknowns, g.Nulls = 0.04, 0.25, 0.03
 		ctxA := g.GenScope()
+		inPrefix := ""
+		if text == "\x00tgt" {
+			ctxA = tgtScope()
+			text = tgtExpr(r)
+			inPrefix = "tgt: "
+			rep.Hist("stream:targeted")
+		} else if strings.HasPrefix(text, "tgt: ") {
+			// replay form of a targeted case
+			ctxA = tgtScope()
+			text = strings.TrimPrefix(text, "tgt: ")
+			inPrefix = "tgt: "
+		}
 		if text == "" {
 			text = g.GenTopExpr()
 		}
@@ -383,6 +504,25 @@ func run(cfg *hv.RunCfg) error {
 				break
 			}
 			rep.Evaluations++
+			if k == 0 {
+				// the Coq case: both scopes, the expression, both observed outcomes
+				info := &hv.ValInfo{}
+				ca, cc := hv.CoqCtx(ctxA, info), hv.CoqCtx(ctxC, info)
+				es := hv.CoqExpr(e, info)
+				va, vc := hv.CoqVal(vA, info), hv.CoqVal(vC, info)
+				mode := 0
+				ra, rc := hv.NumRisk(e, ctxA), hv.NumRisk(e, ctxC)
+				if info.Inexact || ra == 1 || rc == 1 {
+					mode = 1
+					rep.Hist("mode:type-only(inexact number)")
+				}
+				if ra == 2 || rc == 2 || info.Unsupported {
+					mode = 2
+					rep.Hist("mode:skipped(outside the model universe)")
+				}
+				cf.Add(fmt.Sprintf("mkC05 %s\n  %s\n  %s\n  %d %s %s\n  %s %s", ca, cc, es, mode, va, hv.CoqDiagSummaries(dA), vc, hv.CoqDiagSummaries(dC)))
+				rep.Idx(inPrefix + text + "   ## abstract: " + scopeDump(ctxA) + "   ## concrete: " + scopeDump(ctxC))
+			}
 			if dC.HasErrors() {
 				rep.Hist("concrete:error")
 				continue
@@ -390,13 +530,23 @@ func run(cfg *hv.RunCfg) error {
 			rep.Hist("concrete:ok")
 			kind, detail := consistent(vA, vC, "result")
 			if kind != "" {
+				switch {
+				case condDynArm(e, ctxA):
+					kind = "cond-dynamic-unknown-arm"
+				case condDroppedArmFails(e, ctxA, ctxC):
+					kind = "cond-unselected-arm-fails-concretely"
+				}
 				rep.Hist("fail:" + kind)
-				rep.Fail(hv.Failure{Kind: kind, Detail: detail, Input: text,
+				rep.Fail(hv.Failure{Kind: kind, Detail: detail, Input: inPrefix + text,
 					Extra: map[string]string{"abstract_scope": scopeDump(ctxA), "concrete_scope": scopeDump(ctxC), "abstract": hv.DumpVal(vA) + refs(vA), "concrete": hv.DumpVal(vC)}})
 				break
 			}
 		}
 	}
-	rep.CaseFiles = nil
+	names, err := cf.Flush(120)
+	if err != nil {
+		return err
+	}
+	rep.CaseFiles = names
 	return rep.Write(cfg.Out)
 }
